@@ -1,12 +1,13 @@
 """C08 — acceptance is decided exactly by the documented width rules."""
 from props.common_prog import judge_prog
 
-THEOREM_MODULES = ["Hcl.Theorems.C08", "Hcl.Tie.Ops", "Hcl.Tie.Grammar"]
+THEOREM_MODULES = ["Hcl.Theorems.C08", "Hcl.Tie.Ops", "Hcl.Tie.Grammar", "Hcl.Tie.PinsCheck"]
 THEOREMS = {"Hcl.Theorems.C08": ["C08_accept_iff_rules", "C08_reject_iff_rule_violated", "C08_target_rule",
-                                 "C08_width_is_semantic_width", "C08_accepted", "assignmentsToActions_rules", "check_eq_typeOf", "checkOpts_eq", "checkItems_eq"],
+                                 "C08_width_is_semantic_width", "C08_accepted", "C08_accepted_constants", "assignmentsToActions_rules", "resolveConstants_rules", "check_eq_typeOf", "checkOpts_eq", "checkItems_eq"],
             "Hcl.Tie.Ops": ["Tie.Ops.binopKind", "Tie.Ops.combineText", "Tie.Ops.maxText", "Tie.Ops.defaultFeatures",
                             "Tie.Ops.strictnessConsts"],
-            "Hcl.Tie.Grammar": ["Tie.Grammar.grammarBounds"]}
+            "Hcl.Tie.Grammar": ["Tie.Grammar.grammarBounds"],
+            "Hcl.Tie.PinsCheck": ["Tie.PinsCheck.pinGetWidthAndCheck", "Tie.PinsCheck.pinFixMuxWidths", "Tie.PinsCheck.pinEvaluate"]}
 
 RULE = ("S-EXPR well-typed stream plus its mutation stream: one randomly chosen sub-expression of a type-directed expression "
         "(every operator, depth 1-5, four kinds of assignment context through S-PROG) is generated at a perturbed width "
